@@ -88,6 +88,8 @@ func (g *Gen) GenData() *Val {
 		add(fmt.Sprintf("o%d", i), "obj", o, keys)
 	}
 	add("x0", "nil", VNil(), nil)
+	// a value of a named struct type; other struct types print the same name (see NamedStruct)
+	add("r0", "obj", Val{T: "named", I: int64(r.Intn(2))}, []gkey{{"num", "int"}, {"title", "str"}})
 	d := VMap(ks, vs)
 	return &d
 }
@@ -259,6 +261,8 @@ func (g *Gen) Expr(typ string, depth int) string {
 				return fmt.Sprintf("%s.%s()", g.Expr("arr_int", 0), Pick(r, fs))
 			}
 			return fmt.Sprintf("%s.slice(1)", g.Expr("arr_int", depth-1))
+		case c < 6 && g.R.Chance(50):
+			return fmt.Sprintf("%s.prepend(%s)", g.Expr("arr_int", depth-1), g.Expr("int", depth-1))
 		default:
 			return fmt.Sprintf("%s.append(%s)", g.Expr("arr_int", depth-1), g.Expr("int", depth-1))
 		}
